@@ -79,6 +79,7 @@ class FnSpec:
         self.noreturn = False
         self.feature = None
         self.substs = []
+        self.unreachable = []
         self.line = 0
 
     @property
@@ -201,6 +202,10 @@ def parse_template(lines):
                     if not m:
                         raise GenError('bad subst at line %d' % i)
                     spec.substs.append((m.group(1).replace('\\"', '"'), m.group(2).replace('\\"', '"')))
+                    last = None
+                elif kw == 'unreachable':
+                    m = re.match(r'^"((?:[^"\\]|\\.)*)"\s*(.*)$', rest)
+                    spec.unreachable.append((m.group(1).replace('\\"', '"'), m.group(2)))
                     last = None
                 elif kw == 'noreturn':
                     spec.noreturn = True
@@ -580,6 +585,47 @@ class FnEmitter:
             edits.append(Edit(pos1, pos1, ';\n' + '\n'.join(self.ghost(cl) for cl in ends) + '\nvx_res\n', rule='R7-end'))
             self.fire('R7', 'tail expression let-bound to vx_res')
 
+        # --- vacuity probe points (twin only): after every statement a ghost branch asserts false;
+        #     every one of them must be REFUTED by the verifier, otherwise the context at that point is
+        #     inconsistent (contradictory contract / stub) or unreachable.
+        if getattr(self, 'probe_mode', False):
+            self.probe_ids = []
+            par = 0
+            stmt_first = None
+            for i in range(a_tok + 1, b_tok):
+                t = toks[i]
+                if t.text in ('(', '['):
+                    par += 1
+                elif t.text in (')', ']'):
+                    par -= 1
+                if par > 0:
+                    continue
+                if stmt_first is None and t.text not in ('{', '}', ';'):
+                    stmt_first = i
+                if t.text in ('{', '}'):
+                    stmt_first = None
+                    continue
+                if t.text == ';':
+                    first = toks[stmt_first] if stmt_first is not None else None
+                    stmt_first = None
+                    if first is None:
+                        continue
+                    if first.kind == 'ident' and first.text in ('return', 'break', 'continue', 'panic', 'bail', 'use'):
+                        continue
+                    stxt = re.sub(r'\s+', ' ', src[first.start:t.end])
+                    skip = False
+                    for (anc_, why_) in spec.unreachable:
+                        if re.sub(r'\s+', ' ', anc_) in stxt:
+                            skip = True
+                            self.fire('probe-skip', 'statement point declared unreachable (%s): %s' % (why_, anc_))
+                    if skip:
+                        continue
+                    k_ = len(self.probe_ids)
+                    pid_ = 'PROBE:%s:%d' % (spec.qname, k_)
+                    self.probe_ids.append(pid_)
+                    if getattr(self, 'only_point', None) == k_:
+                        edits.append(Edit(t.end, t.end, '\nproof {\n/*@%s*/ assert(false);\n}\n' % pid_, rule='probe'))
+
         # --- R4-entry: `.entry(K).or_insert_with(F)` -> `.vx_entry_or_insert_with(K, F)` (F a fn path)
         #               `.entry(K).or_insert_with(|| Box::new(T::new()))` -> `.vx_entry_or_box_new(K, T::new)`
         for i in range(a_tok, b_tok):
@@ -747,13 +793,16 @@ class FnEmitter:
         return arms
 
     # ------------------------------------------------------------------
-    def emit(self, probe=False):
+    def emit(self, probe=False, only_point=None):
         """Return (text_lines, clause_line_offsets) for this function."""
         spec = self.spec
         sf = self.sf
         toks = sf.toks
         src = sf.src
         self.ghost_lines = []
+        self.probe_mode = probe
+        self.only_point = only_point
+        self.probe_ids = []
         item = self.locate()
         if spec.mode == 'fn':
             # signature: from qualifiers to before body
@@ -854,12 +903,13 @@ class FnEmitter:
             lines.append('    ' + a)
         if probe:
             lines.append('    #[allow(unused)]')
-            head = re.sub(r'\bfn\s+(\w+)', lambda m: 'fn %s__probe' % m.group(1), head, count=1)
+            suffix = '__probe' if only_point is None else '__probe_p%d' % only_point
+            head = re.sub(r'\bfn\s+(\w+)', lambda m: 'fn %s%s' % (m.group(1), suffix), head, count=1)
         lines.extend(('    ' + head).split('\n'))
         for kw in ('requires', 'ensures', 'decreases'):
             g = [c_ for c_ in spec.clauses if c_.kind == kw]
             if probe and kw == 'ensures':
-                if spec.noreturn:
+                if spec.noreturn or only_point is not None:
                     continue
                 lines.append('        ensures')
                 lines.append('            /*@%s#probe*/ false,' % spec.qname)
@@ -884,6 +934,7 @@ class FnEmitter:
             'sha256': hashlib.sha256(orig.encode()).hexdigest(),
             'fired': self.fired,
             'orig': orig,
+            'probe_ids': list(self.probe_ids),
         }
         return lines, rec
 
@@ -966,7 +1017,7 @@ class Generator:
                 self.files[rel] = SourceFile(rel, f.read())
         return self.files[rel]
 
-    def generate(self, template_path, probe=False, quarantine=()):
+    def generate(self, template_path, probe=False, quarantine=(), originals_external=False):
         """Returns dict(text=..., fns=[records], clause_lines={line: (cid,tags,fn)}, fn_ranges=[(a,b,fn,default_tags)],
         errors=[(fn, msg)])"""
         lines = read_template(template_path)
@@ -978,6 +1029,7 @@ class Generator:
         errors = []
         specs = []
         twins = []
+        twin_groups = []
         for seg in segs:
             if seg[0] == 'text':
                 out.extend(seg[1])
@@ -1026,7 +1078,7 @@ class Generator:
                     sf = self.sf(spec.file)
                     em = FnEmitter(spec, sf, self.benchmark, None)
                     flines, rec = em.emit(probe=False)
-                    if spec.qname in quarantine:
+                    if spec.qname in quarantine or originals_external:
                         # re-emit as external_body with its contract only
                         flines = self.quarantined(flines)
                         rec['quarantined'] = True
@@ -1043,17 +1095,31 @@ class Generator:
                     records.append(rec)
                     if probe and spec.qname not in quarantine and ('twin:' + spec.qname) not in quarantine:
                         em2 = FnEmitter(spec, sf, self.benchmark, None)
-                        plines, _ = em2.emit(probe=True)
+                        plines, prec = em2.emit(probe=True)
+                        rec['probe_ids'] = prec.get('probe_ids', [])
                         if spec.noreturn:
                             plines = self.probe_noreturn(plines)
                         ty = spec.target[0] if spec.mode == 'fn' else None
-                        twins.append('/* vacuity probe twin of %s */' % spec.qname)
-                        if ty:
-                            twins.append('impl %s {' % ty)
-                        twins.extend(plines)
-                        if ty:
-                            twins.append('}')
-                        twins.append('/* end twin */')
+
+                        def wrap(lines_, ty=ty, q=spec.qname):
+                            o_ = ['/* vacuity probe twin of %s */' % q]
+                            if ty:
+                                o_.append('impl %s {' % ty)
+                            o_.extend(lines_)
+                            if ty:
+                                o_.append('}')
+                            o_.append('/* end twin */')
+                            return o_
+                        twin_groups.append(wrap(plines))
+                        kept = []
+                        for k_ in range(len(rec['probe_ids'])):
+                            em3 = FnEmitter(spec, sf, self.benchmark, None)
+                            qlines, _ = em3.emit(probe=True, only_point=k_)
+                            if ('/*@%s*/' % rec['probe_ids'][k_]) not in '\n'.join(qlines):
+                                continue      # the statement lies inside a region removed by another edit
+                            kept.append(rec['probe_ids'][k_])
+                            twin_groups.append(wrap(qlines))
+                        rec['probe_ids'] = kept
                 except (GenError, LexError) as e:
                     errors.append((spec.qname, str(e)))
                     records.append({'fn': spec.qname, 'file': spec.file, 'sha256': '', 'fired': [], 'orig': '',
@@ -1061,6 +1127,23 @@ class Generator:
                                     'gen_error': str(e),
                                     'clauses': [{'cid': c.cid, 'kind': c.kind, 'tags': c.tags, 'text': c.text} for c in spec.clauses
                                                 if c.kind in ('requires', 'ensures', 'decreases') or c.kind.startswith('loop_')]})
+        if twin_groups:
+            # twins are spread over child modules so that Verus verifies them in parallel (one job per module)
+            NMOD = 15
+            buse = [l for l in out if l.startswith('broadcast use ')]
+            mods = [[] for _ in range(NMOD)]
+            # longest first, round robin
+            order = sorted(range(len(twin_groups)), key=lambda i_: -len(twin_groups[i_]))
+            for n_, i_ in enumerate(order):
+                mods[n_ % NMOD].extend(twin_groups[i_])
+            for n_, m_ in enumerate(mods):
+                if not m_:
+                    continue
+                twins.append('pub mod vx_twins_%d {' % n_)
+                twins.append('use super::*;')
+                twins.extend(buse)
+                twins.extend(m_)
+                twins.append('} // mod vx_twins_%d' % n_)
         if twins:
             # place the twins just before the closing of the verus! block
             idx = None
